@@ -9,8 +9,8 @@ import knotops as KO
 PID = 'C18'
 STATS = G.STATS
 PARTIAL = [
-    "the volume version of the hull theorem is not stated in Lean (curve and surface are); checked by the exact oracle",
     "length_curve: polyline >= chord and <= control polygon are checked by the oracle in floating point (sqrt); not a Lean theorem",
+    "hull / bounding box: proved for curves, surfaces and volumes, non-rational and rational (positive weights), at the given-spans level (`SpanOk`); the tie span = findSpanLinear(u) is C01/C03's theorem and is not re-assembled here",
 ]
 
 
